@@ -35,6 +35,7 @@ type Goroutine struct {
 	depth   int
 	cur     *Frame
 	timer   *Timer // pseudo-goroutine: an armed timer
+	blockFr *Frame // frame of the operation it is blocked in (for reports)
 }
 
 type Timer struct {
@@ -300,6 +301,7 @@ func (s *Sched) block(fr *Frame, cond func() bool, what string) {
 		g.state, g.cond, g.what = gBlocked, cond, what
 		if fr != nil {
 			g.cur = fr
+			g.blockFr = fr
 		}
 		next := s.chooseNext(g)
 		if next == nil {
@@ -334,7 +336,7 @@ func (s *Sched) quiesce(fr *Frame) {
 	g.state, g.cond, g.what = gRunnable, nil, ""
 	for _, o := range s.gs {
 		if o.state == gBlocked && strings.HasPrefix(o.what, "channel send") {
-			s.c.violation("deadlock:stuck-send", o.cur, "at quiescence a goroutine is blocked for ever in a channel send: "+fmt.Sprintf("g%d(%s) waits for %s", o.id, o.name, o.what))
+			s.c.violation("deadlock:stuck-send", o.blockFr, "at quiescence a goroutine is blocked for ever in a channel send: "+fmt.Sprintf("g%d(%s) waits for %s", o.id, o.name, o.what))
 			break
 		}
 	}
@@ -346,7 +348,7 @@ func (s *Sched) quiesce(fr *Frame) {
 					ws = append(ws, fmt.Sprintf("g%d(%s) waits for %s", p.id, p.name, p.what))
 				}
 			}
-			s.c.violation("deadlock:mutex", o.cur, "at quiescence a goroutine is still waiting for a mutex: "+strings.Join(ws, "; "))
+			s.c.violation("deadlock:mutex", o.blockFr, "at quiescence a goroutine is still waiting for a mutex: "+strings.Join(ws, "; "))
 			break
 		}
 	}
